@@ -325,8 +325,112 @@ def gen_par(rng, thorough):
             scripts[i].append({"t": "fit", "success": True, "token": 100 * i + len(scripts[i]),
                                "new": [[v, hx(mu), hx(sg)] for v, (mu, sg) in new.items()]})
             sim.project(i, delta, cav, last, {v: natf(mu, sg) for v, (mu, sg) in new.items()})
+    stop = [rng.choice(order), rng.randint(1, max_steps)] if rng.random() < 0.3 else None
     return {"kind": "par", "factors": factors, "init": init, "parallel": parallel, "order": order,
-            "max_steps": max_steps, "delta": dj, "scripts": scripts}
+            "max_steps": max_steps, "delta": dj, "scripts": scripts, "stop": stop}
+
+
+
+def gen_subset(rng, thorough):
+    """stochastic EP: subset of a plated graph on a batch, projections on the subset, write-back"""
+    base_factors = gen_graph(rng, thorough)[:5]
+    used = sorted({v for f in base_factors for v in f})
+    ren = {v: i for i, v in enumerate(used)}
+    base_factors = [[ren[v] for v in f] for f in base_factors]
+    basev = sorted({v for f in base_factors for v in f})
+    n = rng.choice([2, 3, 4])
+    plated = {v for v in basev if rng.random() < 0.7}
+    crash_b = rng.random() < 0.05
+    crash_c = rng.random() < 0.05
+    for f in base_factors:
+        if not any(v in plated for v in f):
+            plated.add(f[0])
+    if not crash_c:
+        for v in basev:
+            if v not in plated and sum(1 for f in base_factors if v in f) < 2:
+                plated.add(v)
+    if crash_b:
+        sc = [v for v in basev if v not in plated]
+        if sc:
+            base_factors.append([rng.choice(sc)])
+    elems = {v: ([v * PLATE_W + k for k in range(n)] if v in plated else [v * PLATE_W]) for v in basev}
+    factors = [[fv for v in f for fv in elems[v]] for f in base_factors]
+    nf = len(factors)
+    init = [[[v, hx(rmean(rng)), hx(rsigma(rng))] for v in f] for f in factors]
+    meta = {}
+    if rng.random() < 0.25:
+        one = {}
+        for f in init:
+            for v, mu, sg in f:
+                one.setdefault(v, [v, mu, sg])
+        init = [[list(one[v]) for v, _, _ in f] for f in init]
+        meta["fad"] = True
+    batch = rng.sample(range(n), rng.randint(1, n))
+    if rng.random() < 0.6:
+        batch.sort()
+    sel = sorted(fv for v in basev for fv in ([v * PLATE_W + k for k in batch] if v in plated else [v * PLATE_W]))
+    scalars = sorted(v * PLATE_W for v in basev if v not in plated)
+    frac = Fr(len(batch), n)
+    sim = Sim([{v: natf(unhex(mu), unhex(sg)) for v, mu, sg in f if v in sel} for f in init])
+    steps = []
+    for _ in range(rng.randint(1, 4)):
+        i = rng.randrange(nf)
+        d = rng.choice(DELTAS)
+        delta = Fr(d)
+        cav, last = sim.cavity(i), dict(sim.st[i])
+        keys = list(sim.st[i].keys())
+        new = None
+        for _try in range(12):
+            cand = pick_new(rng, sim, i, delta, cav, last, keys, {v: rng.random() < 0.85 for v in keys})
+            if cand is None:
+                break
+            ok = True
+            for v, (mu, sg) in cand.items():
+                if v in scalars and d >= 1 and frac < 1:
+                    # the code tests new/(cavity*own^(1-s)); keep that on the same side as new/cavity, with a margin
+                    c_, _ok = sim.candidate(delta, cav, last, v, natf(mu, sg))
+                    chk = c_[1] - (1 - frac) * last[v][1]
+                    mag = abs(natf(mu, sg)[1]) + abs(last[v][1]) + (abs(cav[v][1]) if v in cav else 0)
+                    if (c_[1] < 0) != (chk < 0) or abs(chk) * 2 ** 16 < mag:
+                        ok = False
+            if ok:
+                new = cand
+                break
+        if new is None:
+            continue
+        steps.append({"f": i, "via": "sub_project", "delta": {"t": "scalar", "d": hx(d)},
+                      "new": [[v, hx(mu), hx(sg)] for v, (mu, sg) in new.items()]})
+        sim.project(i, delta, cav, last, {v: natf(mu, sg) for v, (mu, sg) in new.items()})
+    wb = rng.choice(["update", "setitem", "merge", "merge", "none"])
+    if scalars and rng.random() < 0.75:
+        wb = rng.choice(["merge", "merge", "none"])
+    return dict({"kind": "subset", "factors": factors, "base_factors": base_factors, "plate": {"n": n, "vars": sorted(plated)},
+                 "init": init, "batch": batch, "steps": steps, "writeback": wb,
+                 "via_subset": rng.choice(["subset", "getitem"])}, **meta)
+
+
+def subset_meta(c):
+    W = PLATE_W
+    plated = set(c["plate"]["vars"])
+    basev = sorted({v for f in c["base_factors"] for v in f})
+    sel = sorted(fv for v in basev for fv in ([v * W + k for k in c["batch"]] if v in plated else [v * W]))
+    scalars = sorted(v * W for v in basev if v not in plated)
+    return sel, scalars, Fr(len(c["batch"]), c["plate"]["n"])
+
+
+def subset_crash_class(c):
+    """the three crashes of the stochastic path on variables without the plate (case-derived)"""
+    plated = set(c["plate"]["vars"])
+    bf = c["base_factors"]
+    if any(not any(v in plated for v in f) for f in bf):
+        return "subset-factor-without-plate", "TypeError"
+    for s in c["steps"]:
+        for v in bf[s["f"]]:
+            if v not in plated and sum(1 for f in bf if v in f) < 2:
+                return "subset-scalar-variable-single-owner", "KeyError"
+    if c["writeback"] in ("update", "setitem") and any(v not in plated for f in bf for v in f):
+        return "subset-inplace-writeback-scalar-variable", "TypeError"
+    return None, None
 
 
 def expand(c):
@@ -464,11 +568,12 @@ def gen_cases(ctx):
             if f.endswith(".json"):
                 cases.append(json.load(open(os.path.join(corpus, f))))
     n_raw, n_plate, n_par, n_decl = (120, 40, 45, 110) if not thorough else (800, 250, 300, 750)
-    for gen, n in ((gen_raw, n_raw), (gen_plate, n_plate), (gen_par, n_par), (gen_decl, n_decl)):
+    n_sub = 40 if not thorough else 250
+    for gen, n in ((gen_raw, n_raw), (gen_plate, n_plate), (gen_subset, n_sub), (gen_par, n_par), (gen_decl, n_decl)):
         made = 0
         while made < n:
             c = gen(rng, thorough)
-            if c is None or (c["kind"] == "raw" and not c["steps"]):
+            if c is None or (c["kind"] in ("raw", "subset") and not c["steps"]):
                 continue
             cases.append(c)
             made += 1
@@ -587,6 +692,7 @@ def check_update(step, i, cav, own, new, msg, glob_before, glob_after, success, 
     bad = []
     first = None
     all_ok = True
+    n_kept = 0
     kind = step["delta"]["t"]
     for v in new:
         d = dl(v)
@@ -609,6 +715,10 @@ def check_update(step, i, cav, own, new, msg, glob_before, glob_after, success, 
             kept = v in msg and v in own and near(msg[v], own[v], mag[v]) and not success
             bad.append(tag if kept else ("wrong-message",))
             first = first or "%s: new message of variable %d is not new/cavity (delta %s)" % (where, v, d)
+            if kept:
+                n_kept += 1
+                if fresh and v in glob_before and not near(glob_after[v], glob_before[v], mag[v]):
+                    bad.append(("wrong-global",))
             continue
         if fresh and v in own:
             if d >= 1 and not near(glob_after[v], new[v], mag[v]):
@@ -623,7 +733,9 @@ def check_update(step, i, cav, own, new, msg, glob_before, glob_after, success, 
     if set(msg) != set(new):
         bad.append(("keys",))
         first = first or "%s: updated factor has variables %s, the fitted distribution %s" % (where, sorted(msg), sorted(new))
-    if success != (succ_in and all_ok) and not bad:
+    # a variable left untouched by the known per-variable-delta-one defect makes the status a failure; every
+    # other expectation stays in force
+    if success != (succ_in and all_ok and not n_kept):
         bad.append(("status",))
         first = first or "%s: status.success is %s but %s" % (where, success, "every projection was proper" if all_ok else "a projection was improper")
     return first, bad
@@ -826,11 +938,121 @@ def oracle_run(c, r, run, nf, state0, parallel, where0):
     return fails
 
 
+
+def bmap(rows):
+    return {v: (a, b) for v, a, b in rows}
+
+
+def oracle_subset(c, r):
+    fails = []
+    reset_hw()
+    sel, scalars, frac = subset_meta(c)
+    fr = float(frac)
+    nf = len(c["factors"])
+    if r["sub_type"] != "EPMeanFieldSubset":
+        fails.append(("subset() returned a %s" % r["sub_type"], []))
+    for i in range(nf):
+        exp = {v: x for v, x in bmap(r["bits0"][i]).items() if v in sel}
+        if bmap(r["sub_bits0"][i]) != exp:
+            fails.append(("subset of factor %d is not the selected plate elements of its messages" % i, []))
+        for v, x in r["rescale"][i]:
+            e = fr if v in scalars else 1.0
+            if abs(x - e) > 1e-12:
+                fails.append(("rescale of variable %d in factor %d is %r, expected %r" % (v, i, x, e), []))
+    state = [dmap(m) for m in r["sub0"]]
+    g0 = dmap(r["subglobal0"])
+    mag = magnitude(*state)
+    for v in {v for m in state for v in m}:
+        if v not in g0 or not near(g0[v], fsum(state, v), mag[v]):
+            fails.append(("subset global approximation of variable %d is not the product of the subset messages" % v, []))
+    for k, (s, o) in enumerate(zip(c["steps"], r["steps"])):
+        i = s["f"]
+        where = "subset step %d (factor %d)" % (k, i)
+        cav_o, own_o, model_o = dmap(o["cavity"]), dmap(o["own"]), dmap(o["model"])
+        after = [dmap(m) for m in o["state"]]
+        msg, glob = dmap(o["msg"]), dmap(o["global"])
+        if not finite(cav_o, own_o, model_o, msg, glob, *after):
+            fails.append((where + ": non-finite natural parameters", []))
+            break
+        cav_t, own_t, model_t = post_identities(state, i)
+        mag = magnitude(*state)
+        # the reported split: factor_dist = own^s, cavity = cavity * own^(1-s); their product is the model distribution
+        for v in own_t:
+            sc_ = fr if v in scalars else 1.0
+            exp_own = (sc_ * own_t[v][0], sc_ * own_t[v][1])
+            if v not in own_o or not near(own_o[v], exp_own, mag[v]):
+                fails.append((where + ": factor_dist of variable %d is not own^%.3g" % (v, sc_), []))
+            c0_ = cav_t.get(v)
+            exp_cav = None if c0_ is None else (c0_[0] + (1 - sc_) * own_t[v][0], c0_[1] + (1 - sc_) * own_t[v][1])
+            if (exp_cav is None) != (v not in cav_o) or (exp_cav is not None and not near(cav_o[v], exp_cav, mag[v])):
+                fails.append((where + ": cavity of variable %d is not cavity * own^(1-s)" % v, []))
+            if v not in model_o or not near(model_o[v], model_t[v], mag[v]):
+                fails.append((where + ": model distribution of variable %d is not message * cavity" % v, []))
+            if v in own_o and v in cav_o and v in model_o and not near(
+                    model_o[v], (own_o[v][0] + cav_o[v][0], own_o[v][1] + cav_o[v][1]), mag[v]):
+                fails.append((where + ": model distribution of variable %d is not factor_dist * cavity_dist" % v, []))
+        if set(own_o) != set(own_t) or set(model_o) != set(own_t):
+            fails.append((where + ": approximation over the wrong variables", []))
+        if not o["others_same"]:
+            fails.append((where + ": the update changed another factor's message", []))
+        if not o["input_same"]:
+            fails.append((where + ": the update mutated the subset approximation it was applied to", []))
+        if o["sub_type"] != "EPMeanFieldSubset":
+            fails.append((where + ": project_mean_field returned a %s" % o["sub_type"], []))
+        m = check_identities(after, i, *post_identities(after, i), glob, where + " after")
+        if m:
+            fails.append((m, []))
+        if msg != after[i]:
+            fails.append((where + ": reported factor message differs from the state", []))
+        new = {v: fnat(unhex(mu), unhex(sg)) for v, mu, sg in s["new"]}
+        gb = {v: fsum(state, v) for v in {v for mm in state for v in mm}}
+        m, bad = check_update(s, i, cav_t, own_t, new, msg, gb, glob, o["success"], True, True, eff_delta(s, state), where)
+        if m:
+            fails.append((m, [("subset-update",)]))
+        state = after
+    # write-back
+    wb = c["writeback"]
+    subf = [bmap(m) for m in r["sub_bits_final"]]
+    for i in range(nf):
+        b0 = bmap(r["bits0"][i])
+        exp = dict(b0) if wb == "none" else {**b0, **subf[i]}
+        if bmap(r["final_bits"][i]) != exp:
+            fails.append(("after %s the messages of factor %d are not the old ones with the batch elements replaced" % (wb, i), []))
+    if wb in ("update", "setitem") and not r.get("same_object"):
+        fails.append(("update did not return the approximation itself", []))
+    if wb == "merge" and (r.get("same_object") or not r.get("input_same")):
+        fails.append(("merge changed the approximation it was applied to", []))
+    final = [dmap(m) for m in r["final"]]
+    glob = dmap(r["final_global"])
+    if dmap(r["final_alias"]) != glob:
+        fails.append(("model_dist (alias of mean_field) differs from mean_field after the write-back", []))
+    if finite(glob, *final):
+        for j, pa in enumerate(r["final_post"]):
+            m = check_identities(final, j, dmap(pa["cavity"]), dmap(pa["own"]), dmap(pa["model"]), glob,
+                                 "read of factor %d after the write-back" % j)
+            if m:
+                fails.append((m, []))
+    else:
+        fails.append(("non-finite natural parameters after the write-back", []))
+    return fails
+
+
+def coq_subset(c, r):
+    sel, scalars, frac = subset_meta(c)
+    steps = []
+    for s, o in zip(c["steps"], r["steps"]):
+        steps.append(c_rstep(s["f"], s["delta"], False, False, s["new"], o, 0))
+    return "CSub %s %s %s %s %s %s %s %s %s %s" % (
+        clist([c_in_mf(m) for m in c["init"]]), clist([cnat(v) for v in sel]), cq(frac), clist([cnat(v) for v in scalars]),
+        clist([c_obs_mf(m) for m in r["sub0"]]), c_obs_mf(r["subglobal0"]), clist(steps),
+        cbool(c["writeback"] != "none"), clist([c_obs_mf(m) for m in r["final"]]), c_obs_mf(r["final_global"]))
+
+
 def oracle_par(c, r):
     reset_hw()
     state0 = [dmap(m) for m in r["state0"]]
     nf = len(state0)
-    run = {"order": c["order"], "max_steps": c["max_steps"], "stop": None, "delta": c["delta"], "scripts": c["scripts"]}
+    run = {"order": c["order"], "max_steps": c["max_steps"], "stop": c.get("stop"), "delta": c["delta"], "scripts": c["scripts"]}
     return oracle_run(c, r, run, nf, state0, c["parallel"], "run")
 
 
@@ -933,6 +1155,9 @@ def oracle_decl(c, r):
                               [("latest_result", i) for i in grp] if got == first_exp else [("wrong-result",)]))
         if len(r["groups"]) != len(exp_groups):
             fails.append(("EPResult accessor count", []))
+        if r.get("posterior_missing"):
+            fails.append(("EPResult.model has no entry for the priors %s of the graph" % r["posterior_missing"],
+                          [("posterior-missing", v) for v in r["posterior_missing"]]))
         if "posterior" in r:
             fm = {v: (a, b) for v, a, b in r["final_mean_sigma"]}
             for v, a, b in r["posterior"]:
@@ -971,6 +1196,13 @@ def classify(c, tagged):
                 return []
         elif t[0] == "latest_result":
             labels.add("latest-result-after-two-successes")
+        elif t[0] == "posterior-missing":
+            # drawn only by a child of a hierarchical factor that is not its last child (children share one name)
+            early = {v for m in c["mfactors"] if m["t"] == "hier" and len(m["drawn"]) > 1 for v in m["drawn"][:-1]}
+            if t[1] in early:
+                labels.add("epresult-model-hierarchical-children-share-name")
+            else:
+                return []
         elif t[0] == "alias-index-write":
             labels.add("indexed-inplace-write-after-project")
         elif t[0] == "delta":
@@ -1097,14 +1329,18 @@ def coq_case(c, r):
         return coq_raw(c, r)
     if c["kind"] == "par":
         return coq_par(c, r)
+    if c["kind"] == "subset":
+        return coq_subset(c, r)
     return coq_decl(c, r)
 
 
 # ---------------------------------------------------------------------------
 def nontrivial(c):
-    if c["kind"] in ("raw", "par"):
+    if c["kind"] in ("raw", "par", "subset"):
         fs = c["factors"]
         shared = any(sum(1 for f in fs if v in f) >= 2 for v in {v for f in fs for v in f})
+        if c["kind"] == "subset":
+            return shared and len(c["steps"]) >= 1 and len(c["batch"]) < c["plate"]["n"]
         n = len(c["steps"]) if c["kind"] == "raw" else c["max_steps"] * len(c["order"])
         return shared and n >= 2
     fs, gf, include = decl_graph(c)
@@ -1119,6 +1355,8 @@ def kind_of(c):
         if any(s["via"].startswith("inplace") for s in c["steps"]):
             return "raw-inplace"
         return "raw-stale" if any(s.get("stale") for s in c["steps"]) else "raw"
+    if c["kind"] == "subset":
+        return "subset-" + c["writeback"]
     if c["kind"] == "par":
         return "run-parallel" if c["parallel"] else "run-sequential"
     return "decl-" + c["run"]["mode"]
@@ -1186,10 +1424,10 @@ def run(ctx):
             ctx.hist("delta", c["run"]["delta"]["t"])
         else:
             ctx.hist("factors", len(c["factors"]))
-            ctx.hist("updates", len(c["steps"]) if c["kind"] == "raw" else c["max_steps"] * len(c["order"]))
+            ctx.hist("updates", len(c["steps"]) if c["kind"] in ("raw", "subset") else c["max_steps"] * len(c["order"]))
             fs_ = c["factors"]
             ctx.hist("max_sharing", max(sum(1 for f in fs_ if v in f) for v in {v for f in fs_ for v in f}))
-            for s_ in (c["steps"] if c["kind"] == "raw" else []):
+            for s_ in (c["steps"] if c["kind"] in ("raw", "subset") else []):
                 ctx.hist("via", s_["via"])
                 ctx.hist("delta", s_["delta"]["t"] + ("=" + str(unhex(s_["delta"]["d"])) if s_["delta"]["t"] == "scalar" else ""))
             if c["kind"] == "par":
@@ -1200,13 +1438,23 @@ def run(ctx):
         if "exc" in r:
             ctx.oracle["failures"] += 1
             oracle_failed.add(i)
-            ctx.failure("oracle", "implementation raised %s: %s" % (r["exc"], r.get("msg")), c, impl=r)
+            classes = []
+            if c["kind"] == "subset":
+                cls_, exc_ = subset_crash_class(c)
+                if cls_ and r["exc"] == exc_:
+                    classes = [cls_]
+            ctx.failure("oracle", "implementation raised %s: %s" % (r["exc"], r.get("msg")), c, classes=classes, impl=r)
             continue
         o = r["ok"]
         if c["kind"] == "decl" and run_order(c, o) != c["run"]["order"] and not margins_ok(c, run_order(c, o)):
             ctx.hist("dropped", "graph order differs from the generator's assumption and margins are not guaranteed")
             continue
-        fails = {"raw": oracle_raw, "par": oracle_par, "decl": oracle_decl}[c["kind"]](c, o)
+        if c["kind"] == "subset" and subset_crash_class(c)[0]:
+            ctx.oracle["failures"] += 1
+            oracle_failed.add(i)
+            ctx.failure("oracle", "expected the known crash %s but the call went through" % subset_crash_class(c)[0], c)
+            continue
+        fails = {"raw": oracle_raw, "par": oracle_par, "decl": oracle_decl, "subset": oracle_subset}[c["kind"]](c, o)
         if fails:
             ctx.oracle["failures"] += 1
             oracle_failed.add(i)
